@@ -87,3 +87,9 @@ claim("C17", "other",
       "Decides, exhaustively over the extracted tables, that toFileMode/fromFileMode are the POSIX<->os mapping and mutually inverse on all seven type constants, the three special bits and the permission mask; that reported attributes come from the FileInfo's own Size/Mode/ModTime/owner; that both set-attribute handlers apply exactly the four flag->call pairs with the right arguments and agree; that client setters pair flag and payload in wire order; that the long name is built from the same entry.",
       "What the host file system reports is out of scope; oracle: POSIX S_IF* and os.Mode* (DESIGN.md Appendix A.4).",
       "DESIGN.md section 4, C17")
+
+claim("C06", "other",
+      "extraction of ordered wire-primitive sequences from SSA for every marshal/unmarshal function of both codecs, compared with each other and with the draft/OpenSSH oracle layouts; affine check of the length prefix; shift-pattern check of integer primitives; cursor-threading rule",
+      "Decides layout agreement: per packet type marshal = unmarshal (field by field) in package sftp, both = the SFTP v3 draft layout = the filexfer sibling's encoder and decoder; attribute blocks by flag in four functions = the draft, flag and type-code constants equal across packages; length prefix = len(header)+len(payload)-4 with header first; big-endian primitives with matching shifts; no decode drops its rest buffer while decoding continues; StatVFS field order/width. Value-level round trips beyond these shapes are not decided.",
+      "Trusted: encoding/binary; oracle layouts in DESIGN.md Appendix A.1/A.2.",
+      "DESIGN.md section 4, C06")
